@@ -278,6 +278,20 @@ func (r *runner) runCase(cs *Case, judge bool) outcome {
 			} else if !oc.ImplOK || strings.Join(want, "|") != strings.Join(snaps, "|") {
 				oc.Mismatch = true
 				note := "interpreter vs Model.Heap (Cfg.fixed)"
+				elided := false
+				if el, err2 := r.m.Ask(strings.Replace(line, "fixed", "elided", 1)); err2 == nil {
+					es := strings.Split(el, "|")
+					var ew []string
+					for _, e := range ends {
+						if e < len(es) {
+							ew = append(ew, es[e])
+						}
+					}
+					if strings.Join(ew, "|") == strings.Join(snaps, "|") {
+						elided = true
+						note += "; the implementation agrees with Cfg.elided (a call result is bound to a by-value parameter without the copy: C06_call_result_copy_needed)"
+					}
+				}
 				if pin, err2 := r.m.Ask(strings.Replace(line, "fixed", "pinned", 1)); err2 == nil {
 					ps := strings.Split(pin, "|")
 					var pw []string
@@ -286,7 +300,7 @@ func (r *runner) runCase(cs *Case, judge bool) outcome {
 							pw = append(pw, ps[e])
 						}
 					}
-					if strings.Join(pw, "|") == strings.Join(snaps, "|") {
+					if !elided && strings.Join(pw, "|") == strings.Join(snaps, "|") {
 						note += "; the implementation agrees with Cfg.pinned (the C06 fixes are not in this tree)"
 					}
 				}
